@@ -1,6 +1,7 @@
 /-
-  Model of src/emu/ovnisort.c (ring, find_destination, execute_sort_plan,
-  sort_buf, rebuild_ring, ring_check, stream_winsort, stream_check) together
+  Model of src/emu/ovnisort.c (ring, find_destination, region_in_place,
+  execute_sort_plan, sort_buf, rebuild_ring, ring_check, stream_winsort,
+  stream_check) together
   with the part of src/emu/stream.c it drives (stream_step with
   stream_allow_unsorted: no clock test, only "event fits").
 
@@ -188,11 +189,12 @@ def skey (c : Nat) : Int := if c < 2 ^ 63 then (c : Int) else (c : Int) - 2 ^ 64
 /-- `cmp_ev a b <= 0` -/
 def cmpLe (a b : Ev) : Bool := skey a.clock ≤ skey b.clock
 
-/-- `execute_sort_plan`: the buffer `buf` holds the events before `next`
-    (= `buf.length`); `bad0` is the index of the first event of the region.
-    Returns the status, the new buffer, the ring and the executed plan
-    `(first, next)` if a write happened. -/
-def executeSortPlan (sortFn : List Ev → List Ev) (buf : List Ev) (r : Ring) (bad0 : Nat) :
+/-- The part of `execute_sort_plan` after the `region_in_place` test (the
+    whole function before that test existed): the buffer `buf` holds the
+    events before `next` (= `buf.length`); `bad0` is the index of the first
+    event of the region.  Returns the status, the new buffer, the ring and the
+    executed plan `(first, next)` if a write happened. -/
+def sortRegion (sortFn : List Ev → List Ev) (buf : List Ev) (r : Ring) (bad0 : Nat) :
     Status × List Ev × Ring × Option (Nat × Nat) :=
   let next := buf.length
   let clock0 := clockAt buf bad0
@@ -215,6 +217,25 @@ def executeSortPlan (sortFn : List Ev → List Ev) (buf : List Ev) (r : Ring) (b
         if ringCheck buf' r' i0 then (Status.ok, buf', r', some (first, next))
         else (Status.dieRingNotSorted, buf', r', some (first, next))
 
+/-- The loop of `region_in_place`: `false` as soon as a clock is lower than the
+    previous one. -/
+def inPlaceLoop : Nat → List Ev → Bool
+  | _, [] => true
+  | last, e :: l => if e.clock < last then false else inPlaceLoop e.clock l
+
+/-- `region_in_place`: the events from the `OU[` marker (index `opn`,
+    `sp->open`) up to `next` (= `buf.length`) have non-decreasing clocks;
+    `last_clock` starts as the clock of the marker. -/
+def regionInPlace (buf : List Ev) (opn : Nat) : Bool :=
+  inPlaceLoop (clockAt buf opn) (buf.drop opn)
+
+/-- `execute_sort_plan`: a region that is already in place is left alone (no
+    look back, no write, ring untouched); otherwise `sortRegion`. -/
+def executeSortPlan (sortFn : List Ev → List Ev) (buf : List Ev) (r : Ring) (opn bad0 : Nat) :
+    Status × List Ev × Ring × Option (Nat × Nat) :=
+  if regionInPlace buf opn then (Status.ok, buf, r, none)
+  else sortRegion sortFn buf r bad0
+
 /-- `st` of stream_winsort: 'S', 'U', 'X' -/
 inductive St where
   | S | U | X
@@ -225,6 +246,8 @@ structure WS where
   done : List Ev
   ring : Ring
   st : St
+  /-- `sp.open`: index of the `OU[` marker of the current region -/
+  opn : Nat
   bad0 : Nat
   emptyRegions : Nat
   /-- executed sort plans `(first, next)` (ghost: the `pwrite` ranges) -/
@@ -232,7 +255,7 @@ structure WS where
   deriving Repr
 
 def WS.init (n : Nat) : WS :=
-  { done := [], ring := Ring.new n, st := St.S, bad0 := 0, emptyRegions := 0, plans := [] }
+  { done := [], ring := Ring.new n, st := St.S, opn := 0, bad0 := 0, emptyRegions := 0, plans := [] }
 
 /-- Body of the `while (stream_step(stream) == 0)` loop for the event `e`.
     `Except.error` = `return -1` / `die` inside `execute_sort_plan`, with
@@ -241,7 +264,7 @@ def wsStep (sortFn : List Ev → List Ev) (s : WS) (e : Ev) : Except (Status × 
   let k := s.done.length
   let add (s : WS) : WS := { s with ring := ringAdd s.ring k, done := s.done ++ [e] }
   if s.st = St.S ∧ e.kind = Kind.start then
-    .ok (add { s with st := St.U })
+    .ok (add { s with st := St.U, opn := k })
   else if s.st = St.U then
     if e.kind = Kind.stop then
       .ok (add { s with st := St.S, emptyRegions := s.emptyRegions + 1 })
@@ -249,9 +272,9 @@ def wsStep (sortFn : List Ev → List Ev) (s : WS) (e : Ev) : Except (Status × 
       .ok (add { s with st := St.X, bad0 := k })
   else if s.st = St.X then
     if e.kind = Kind.stop then
-      match executeSortPlan sortFn s.done s.ring s.bad0 with
+      match executeSortPlan sortFn s.done s.ring s.opn s.bad0 with
       | (Status.ok, buf', r', p) =>
-        .ok (add { s with done := buf', ring := r', st := St.S, bad0 := 0,
+        .ok (add { s with done := buf', ring := r', st := St.S, opn := 0, bad0 := 0,
                           plans := s.plans ++ p.toList })
       | (st, buf', _, p) => .error (st, buf', s.plans ++ p.toList)
     else .ok (add s)
@@ -351,21 +374,23 @@ def geCount (m : Nat) (l : List Ev) : Nat := (l.filter (fun e => m ≤ e.clock))
 def windowOkAt (n : Nat) (m : Nat) (pre : List Ev) : Bool :=
   pre.length + 1 < n || (geCount m pre + 1 < n && geCount m pre < pre.length)
 
-/-- `WithinWindow n`: at every non-empty region the window condition holds.
-    `pre` are the events before the cursor (most recent first), `m` the
-    minimum clock of the current region so far. -/
-def windowOk (n : Nat) : St → List Ev → Nat → List Ev → Bool
-  | _, _, _, [] => true
-  | St.S, pre, _, e :: rest =>
-    windowOk n (if e.kind = Kind.start then St.U else St.S) (e :: pre) 0 rest
-  | St.U, pre, _, e :: rest =>
-    if e.kind = Kind.stop then windowOk n St.S (e :: pre) 0 rest
-    else windowOk n St.X (e :: pre) e.clock rest
-  | St.X, pre, m, e :: rest =>
-    if e.kind = Kind.stop then windowOkAt n m pre && windowOk n St.S (e :: pre) 0 rest
-    else windowOk n St.X (e :: pre) (min m e.clock) rest
+/-- `WithinWindow n`: at every non-empty region that is not already in place
+    the window condition holds.  `pre` are the events before the cursor (most
+    recent first), `m` the minimum clock of the current region so far, `ip`
+    tells that the clocks from the `OU[` marker on have not decreased so far
+    and `last` is the clock of the previous event. -/
+def windowOk (n : Nat) : St → List Ev → Nat → Bool → Nat → List Ev → Bool
+  | _, _, _, _, _, [] => true
+  | St.S, pre, _, _, _, e :: rest =>
+    windowOk n (if e.kind = Kind.start then St.U else St.S) (e :: pre) 0 true e.clock rest
+  | St.U, pre, _, _, last, e :: rest =>
+    if e.kind = Kind.stop then windowOk n St.S (e :: pre) 0 true e.clock rest
+    else windowOk n St.X (e :: pre) e.clock (decide (last ≤ e.clock)) e.clock rest
+  | St.X, pre, m, ip, last, e :: rest =>
+    if e.kind = Kind.stop then (ip || windowOkAt n m pre) && windowOk n St.S (e :: pre) 0 true e.clock rest
+    else windowOk n St.X (e :: pre) (min m e.clock) (ip && decide (last ≤ e.clock)) e.clock rest
 
-def WithinWindow (n : Nat) (evs : List Ev) : Prop := windowOk n St.S [] 0 evs = true
+def WithinWindow (n : Nat) (evs : List Ev) : Prop := windowOk n St.S [] 0 true 0 evs = true
 
 def ClocksSigned (evs : List Ev) : Prop := ∀ e ∈ evs, e.clock < 2 ^ 63
 
